@@ -228,6 +228,7 @@ def check_crystal(part, spec):
                     part.outcome((mode, len(obs)))
     part.nontriv((label, tuple(radii), tuple(sorted(spec["queries"]))))
     part.count("crystals")
+    part.nstates(1)
     part.dev("max_length_over_perp_width", obliq)
 
 
